@@ -29,6 +29,10 @@ Replace-around steps (last section of lean/Props/C17.lean):
   gap" is computed from the real `ResolvedPos` data (`inside_gap` below) and by the model (driver op `gapGuard`),
   compared, and the relational oracle "guard true => the real code's four applications succeed and give equal
   documents" is checked on every such pair (counters `gapGuard:<guard>,<converged|an-order-fails>`).
+* the further hypotheses of `commute_succeeds_around_gap` are counted on the pairs with a true guard
+  (`gapGuard-true:slice-closed=…,ends-aligned=…`; slice closedness compared with the real step, alignment model-only).
+* mark step outside `[from, to]` of a replace-around step (`commute_succeeds_around_mark_partial`): `commuteGuard` with
+  the mark step's range and the open depths of `doc.slice(from, to)`, same tie and oracle (`guard-around-mark:*`).
 * two replace-around steps one after the other (`commute_succeeds_around_around`): `commuteGuard` on `(from, to, slice)`
   of both, same tie and oracle as for replace steps (counters `guard-around-around:*`).
 """
@@ -152,6 +156,13 @@ def inside_gap(doc, a, r):
         d += 1
 
 
+class AsReplace:
+    """a mark step seen as the replace of its range by the re-marked slice (`markStep_as_replace`, lean/Proofs/
+    CommuteAroundAgain.lean): range and open depths of `doc.slice(from, to)`"""
+    def __init__(self, st, doc):
+        self.from_, self.to, self.slice = st.from_, st.to, doc.slice(st.from_, st.to)
+
+
 def first_step(rng, info, d, docs):
     tr = Transform(d)
     name, args, thunk = ops.plan_op(rng, info, d, docs)
@@ -193,10 +204,15 @@ def run(ctx):
             if req["op"] == "gapGuard":
                 replay, impl_guard, converged = meta
                 ctx.count("gapGuard:model_requests")
-                if out.get("ok") is not impl_guard:
+                mo = out.get("ok")
+                if not isinstance(mo, list) or len(mo) != 3 or mo[0] is not impl_guard[0] or mo[1] is not impl_guard[1]:
                     ctx.mismatch("gapGuard", replay, impl_guard, out)
                     continue
+                impl_guard = impl_guard[0]
                 ctx.count("gapGuard:%s,%s" % (impl_guard, "converged" if converged else "an-order-fails"))
+                if impl_guard:
+                    # the further hypotheses of `commute_succeeds_around_gap`: closed slice (`hcl`), aligned ends (`hdbal`)
+                    ctx.count("gapGuard-true:slice-closed=%s,ends-aligned=%s" % (mo[1], mo[2]))
                 if impl_guard and not converged:
                     # the conclusion of `commute_succeeds_around_gap` fails on the real code although its guard holds
                     ctx.mismatch("gapGuard=>converge", replay, "a rebased step fails or the orders differ", out)
@@ -301,9 +317,9 @@ def run(ctx):
                             if da_ is None or db_ is None:
                                 break
                             if isinstance(y, (ReplaceStep, ReplaceAroundStep)):
-                                stg, g = outcome(lambda: inside_gap(d, x, y))
+                                stg, g = outcome(lambda: (inside_gap(d, x, y), x.slice.open_start == 0 and x.slice.open_end == 0))
                                 if stg == "ok":
-                                    sreqs.append({"op": "gapGuard", "doc": info.node(d), "a": info.step(x), "b": info.step(y)})
+                                    sreqs.append({"op": "gapGuard", "s": info.lean_id, "doc": info.node(d), "a": info.step(x), "b": info.step(y)})
                                     smetas.append((greplay, g, x2 is not None and y2 is not None and dxy is not None
                                                    and dyx is not None and dxy.eq(dyx)))
                             if x2 is None or y2 is None:
@@ -353,6 +369,16 @@ def run(ctx):
                         stg, g = outcome(lambda: (inside_left(d, l, r), inside_right(d, l, r)))
                         if stg == "ok":
                             ctx.count("guard-around%s:" % ("" if n_around == 1 else "-around") + ("holds" if (g[0] or g[1]) else "fails"))
+                            greqs.append({"op": "commuteGuard", "doc": info.node(d), "a": info.step(l), "b": info.step(r)})
+                            gmetas.append((replay, g, dab is not None and dba is not None and dab.eq(dba)))
+                    if n_around == 1 and (isinstance(a, (AddMarkStep, RemoveMarkStep)) or isinstance(b, (AddMarkStep, RemoveMarkStep))):
+                        # `commute_succeeds_around_mark_partial`: the guard with the mark step's range and the open depths
+                        # of the slice it re-marks
+                        l, r = (a, b) if a.to < b.from_ else (b, a)
+                        stg, g = outcome(lambda: (lambda l2, r2: (inside_left(d, l2, r2), inside_right(d, l2, r2)))(
+                            *(x if isinstance(x, ReplaceAroundStep) else AsReplace(x, d) for x in (l, r))))
+                        if stg == "ok":
+                            ctx.count("guard-around-mark:" + ("holds" if (g[0] or g[1]) else "fails"))
                             greqs.append({"op": "commuteGuard", "doc": info.node(d), "a": info.step(l), "b": info.step(r)})
                             gmetas.append((replay, g, dab is not None and dba is not None and dab.eq(dba)))
                     if type(a) is ReplaceStep and type(b) is ReplaceStep:
